@@ -264,6 +264,26 @@ Definition pc_handle (root : pc_node) (cwd : pc_path) (api : list N) (upd : opti
          end
        end.
 
+(* What travels on the queue is a PathBuf, i.e. TEXT: `queue_tx.send((full_path.clone(), ..))`
+   where `full_path` is (after the shadowing `let full_path = match full_path.canonicalize()`)
+   the canonical path. The unit resolves that text again later (File::open, and once
+   more for the sha256), so besides WHERE the text resolves it matters whether the text
+   is itself canonical: a text with a symbolic link, "." or ".." in it names a location
+   that can move between the endpoint's check and the unit's use. *)
+Definition pc_entry_text (full : pc_path) : list N := pc_render full.
+
+(* the text equals its own canonicalisation (byte for byte) *)
+Definition pc_text_canonical (root : pc_node) (cwd : pc_path) (s : list N) : bool :=
+  match pc_canon root cwd s with
+  | inr p => pc_bytes_eqb (pc_render p) s
+  | inl _ => false
+  end.
+
+(* the observation of one queue entry: where its text resolves (what File::open
+   would open) and whether the text is canonical *)
+Definition pc_observe (root : pc_node) (cwd : pc_path) (full : pc_path) : (pc_err + pc_path) * bool :=
+  (pc_canon root cwd (pc_entry_text full), pc_text_canonical root cwd (pc_entry_text full)).
+
 (* the reason as a small number, for the driver's diagnostics *)
 Definition pc_why (root : pc_node) (cwd : pc_path) (upd : option (list N)) (rq : pc_req) : N :=
   match pc_decide root cwd upd (pc_get_file (rq_query rq)) with
